@@ -11,6 +11,7 @@ import DeapModel.Lemmas.C11Ops
 import DeapModel.Lemmas.C11Add
 import DeapModel.Lemmas.C11TotalOps
 import DeapModel.Lemmas.C11Ex
+import DeapModel.Lemmas.C11Hist
 
 namespace C11
 open GpTree
@@ -59,9 +60,9 @@ theorem typed_iff (sub : Nat → Nat → Bool) (σ : Nat) (l : List Prim) :
 /-! ## `searchSubtree` and `height` -/
 
 
-/-- `searchSubtree` on the prefix form of `t` at index `i` returns exactly the span
+/-- (non-negative index) `searchSubtree` on the prefix form of `t` at index `i` returns exactly the span
 `[i, i + size s)` of the subtree `s` rooted at the `i`-th node, and that slice is `flatten s`. -/
-theorem searchSubtree_span (t s : Tree) (i : Nat) (hw : wf t = true) (hs : subAt t i = some s) :
+theorem searchSubtree_span_nat (t s : Tree) (i : Nat) (hw : wf t = true) (hs : subAt t i = some s) :
     searchSubtree (flatten t) i = some (i, i + s.size) ∧
     getSlice (flatten t) i (i + s.size) = flatten s := by
   obtain ⟨pre, post, e, hl⟩ := subAt_decomp t i s hs
@@ -69,6 +70,31 @@ theorem searchSubtree_span (t s : Tree) (i : Nat) (hw : wf t = true) (hs : subAt
   refine ⟨searchSubtree_at pre post s (subAt_wf t i s hw hs), ?_⟩
   have := getSlice_at pre post (flatten s)
   rwa [flatten_length] at this
+
+/-- **The method at any Python index.**  For an index `i` that Python's list indexing maps to the node at position
+`j` (`j = i` for `0 ≤ i < len`, `j = i + len` for `-len ≤ i < 0` — `searchSubtree_index` shows these are exactly the
+indices of nodes), `PrimitiveTree.searchSubtree(i)` returns exactly the span `[j, j + size s)` of the subtree `s`
+rooted at that node, and that slice is `flatten s`. -/
+theorem searchSubtree_span (t s : Tree) (i : Int) (j : Nat) (hw : wf t = true)
+    (hj : (j : Int) = pyIndex t.size i) (hs : subAt t j = some s) :
+    searchSubtreePy (flatten t) i = some ((j : Int), (j : Int) + (s.size : Int)) ∧
+    getSlice (flatten t) j (j + s.size) = flatten s := by
+  obtain ⟨h1, h2⟩ := searchSubtree_span_nat t s j hw hs
+  refine ⟨?_, h2⟩
+  rw [searchSubtreePy_of_nat (flatten t) i j (by rw [flatten_length]; exact hj), h1]
+  simp
+
+/-- the last node through the index `-1`: a leaf, span `[len-1, len)` -/
+example : searchSubtreePy [pAdd, pOne, pOne] (-1) = some (2, 3) ∧ searchSubtreePy [pAdd, pOne, pOne] (-3) = some (0, 3) :=
+  ⟨by decide, by decide⟩
+
+/-- every index `-len ≤ i < len` is the index of a node, which is the root of a subtree (so `searchSubtree_span`
+applies at every index Python accepts for the list) -/
+theorem searchSubtree_index (t : Tree) (i : Int) (hlo : -(t.size : Int) ≤ i) (hhi : i < (t.size : Int)) :
+    ∃ (j : Nat) (s : Tree), (j : Int) = pyIndex t.size i ∧ subAt t j = some s := by
+  obtain ⟨j, hj, hlt⟩ := pyIndex_range t.size i hlo hhi
+  obtain ⟨s, hs⟩ := subAt_exists t j hlt
+  exact ⟨j, s, hj, hs⟩
 
 /-- every index of the list is the root of a subtree (so `searchSubtree_span` applies everywhere) -/
 theorem searchSubtree_total (t : Tree) (i : Nat) (hi : i < (flatten t).length) : ∃ s, subAt t i = some s :=
@@ -110,7 +136,7 @@ theorem splice_welltyped {sub : Nat → Nat → Bool}
       List.getElem?_append_left (by rw [flatten_length]; have := size_pos s; omega)]
     simp [hl, flatten_root]
   obtain ⟨e', hsr, _, _, _, _, hset⟩ := splice trans refl hty hp
-  have hspan := (searchSubtree_span t s i (wf_of_wt ht) hs).1
+  have hspan := (searchSubtree_span_nat t s i (wf_of_wt ht) hs).1
   rw [hspan] at hsr; simp at hsr; subst hsr
   obtain ⟨h1, h2⟩ := hset (flatten u) (typed_iff_tree.2 ⟨u, hu, rfl⟩)
   obtain ⟨t', hw', hf'⟩ := typed_iff_tree.1 h2
@@ -260,6 +286,16 @@ theorem gen_half (ps : Pset) (ok : PsetOK ps) (mn mx τ : Nat) (tp tp' : Tape) (
       exact ⟨t, hf, hw, fun x hx => by rw [h3 x hx]; exact h1, by omega, by omega⟩
 
 example : genHalfAndHalf exPs 1 1 2 [.choice 2 1, .randint 1 1 1, .choice 2 1, .choice 1 0, .choice 1 0] =
+    .ok ([pAnd, pTrue, pTrue], []) := by rfl
+
+/-- `genRamped` (the deprecated name of `genHalfAndHalf`) gives the same guarantees -/
+theorem gen_ramped (ps : Pset) (ok : PsetOK ps) (mn mx τ : Nat) (tp tp' : Tape) (out : List Prim)
+    (hg : genRamped ps mn mx τ tp = .ok (out, tp')) :
+    ∃ t, flatten t = out ∧ wt ps.sub τ t = true ∧
+      (∀ x ∈ leafDepths 0 t, mn ≤ x) ∧ mn ≤ t.height ∧ t.height ≤ mx :=
+  gen_half ps ok mn mx τ tp tp' out hg
+
+example : genRamped exPs 1 1 2 [.choice 2 1, .randint 1 1 1, .choice 2 1, .choice 1 0, .choice 1 0] =
     .ok ([pAnd, pTrue, pTrue], []) := by rfl
 
 /-! ## Crossovers -/
@@ -1080,6 +1116,195 @@ example (tp : Tape) : Benign 2 tp (mutShrink [pAdd, pAdd, pOne, pTrue, pOne] tp)
 example : Benign 3 [.choice 1 0, .choice 2 0, .choice 3 0]
     (cxOnePoint [pAdd, pOne, pOne] [pAdd, pTrue, pAdd, pOne, pOne] [.choice 1 0, .choice 2 0, .choice 3 0]) :=
   cx_total exSub_refl exSub_trans _ (wellFormed_iff_typed.2 ex_ty3) (wellFormed_iff_typed.2 ex_ty5)
+
+/-! ## `staticLimit`: totality -/
+
+/-- **The wrapper returns whenever the wrapped operator does.**  If the operator returned `new` (leaving the tape
+`tp1`), every returned tree can be measured by `key` (`len` always, `height` on a complete expression) and — when
+there is a child at all — at least one tree was passed positionally (the pool of kept parents is not empty), then the
+wrapper never raises: it returns on every well-typed rest tape holding one `choice` per child; and whenever it returns
+it returns exactly as many trees as the operator and has drawn at most one `choice` per child. -/
+theorem staticLimit_total (key : List Prim → Option Nat) (maxv npos : Nat)
+    (op : List (List Prim) → Tape → R (List (List Prim) × Tape))
+    (args new : List (List Prim)) (tp tp1 : Tape)
+    (hop : op args tp = .ok (new, tp1))
+    (hkey : ∀ n ∈ new, ∃ k, key n = some k)
+    (hpool : new ≠ [] → 0 < npos ∧ args ≠ []) :
+    Benign new.length tp1 (staticLimit key maxv npos op args tp) ∧
+    ∀ outs tp', staticLimit key maxv npos op args tp = .ok (outs, tp') →
+      outs.length = new.length ∧ tp'.length ≤ tp1.length ∧ tp1.length ≤ tp'.length + new.length := by
+  unfold staticLimit
+  rw [hop]
+  simp only
+  have hkeep : new ≠ [] → (args.take npos).take new.length ≠ [] := by
+    intro hn
+    obtain ⟨h1, h2⟩ := hpool hn
+    cases args with
+    | nil => exact absurd rfl h2
+    | cons a as =>
+      cases new with
+      | nil => exact absurd rfl hn
+      | cons n ns =>
+        cases npos with
+        | zero => omega
+        | succ k => simp
+  obtain ⟨hb, hl⟩ := staticLimitLoop_benign (key := key) (maxv := maxv) new tp1 hkeep hkey
+  refine ⟨hb, ?_⟩
+  intro outs tp' h
+  exact ⟨(staticLimitLoop_spec new tp1 outs tp' h).1, hl outs tp' h⟩
+
+/-- … and a fault of the operator is the wrapper's fault (it adds none of its own before the operator ran) -/
+theorem staticLimit_fault (key : List Prim → Option Nat) (maxv npos : Nat)
+    (op : List (List Prim) → Tape → R (List (List Prim) × Tape)) (args : List (List Prim)) (tp : Tape) (e : Fault)
+    (hop : op args tp = .error e) : staticLimit key maxv npos op args tp = .error e := by
+  unfold staticLimit; rw [hop]
+
+/-- instance: `mutInsert` under a size limit 3 on a 3-node tree; the child has 5 nodes, one `choice` is drawn -/
+example : ∃ new tp1,
+    (fun (args : List (List Prim)) tp => match args with
+        | [x] => lift1 (mutInsert x exPs tp)
+        | _ => .error .raised) [[pAdd, pOne, pOne]]
+      [.randrange 0 3 1, .choice 2 0, .choice 2 1, .choice 3 1, .choice 1 0] = .ok (new, tp1) ∧
+    (∀ n ∈ new, ∃ k, (fun l : List Prim => some l.length) n = some k) ∧ (new ≠ [] → 0 < 1 ∧ [[pAdd, pOne, pOne]] ≠ []) :=
+  ⟨[[pAdd, pAdd, pTrue, pOne, pOne]], [.choice 1 0], by rfl, by simp, by simp⟩
+
+/-! ## Histories
+
+`runHistory ps steps pop tape`: a finite sequence of the modelled operators (each bare or wrapped by `staticLimit`)
+applied to the tree objects of a population, results written back to the objects they came from, one tape threaded
+through.  Positions are object identities: two positions are two distinct objects. -/
+
+/-- **One operator, one step.**  Every modelled operator (both crossovers, the five mutations, `mutUniform` with any of
+the three DEAP generators as replacement generator) maps well-formed well-typed trees for the slot `σ` to as many such
+trees. -/
+theorem op_closed {ps : Pset} (ok : PsetOK ps) (σ : Nat) (op : Op) (args outs : List (List Prim)) (tp tp' : Tape)
+    (hargs : ∀ a ∈ args, WellFormed ps.sub σ a)
+    (h : applyOp ps op args tp = .ok (outs, tp')) :
+    outs.length = args.length ∧ ∀ o ∈ outs, WellFormed ps.sub σ o := by
+  unfold applyOp at h
+  split at h
+  · rename_i i j x y
+    obtain ⟨o1, o2, hr, rfl⟩ := lift2_ok h
+    obtain ⟨h1, h2, _⟩ := cx_closed ok.refl ok.trans (hargs x (by simp)) (hargs y (by simp)) hr
+    exact ⟨rfl, by intro o ho; simp at ho; rcases ho with rfl | rfl <;> assumption⟩
+  · rename_i i j pb x y
+    obtain ⟨o1, o2, hr, rfl⟩ := lift2_ok h
+    obtain ⟨h1, h2, _⟩ := cxlb_closed ok.refl ok.trans (hargs x (by simp)) (hargs y (by simp)) hr
+    exact ⟨rfl, by intro o ho; simp at ho; rcases ho with rfl | rfl <;> assumption⟩
+  · rename_i i m mn mx x
+    obtain ⟨o, hr, rfl⟩ := lift1_ok h
+    have := mutUniform_closed ok.refl ok.trans (expr := fun τ tp => runGen m ps mn mx τ tp)
+      (by intro τ tp o tp' hg
+          unfold runGen at hg
+          split at hg
+          · obtain ⟨t, h1, h2, _⟩ := gen_full ps ok mn mx τ tp tp' o hg; exact ⟨t, h2, h1⟩
+          · obtain ⟨t, h1, h2, _⟩ := gen_grow ps ok mn mx τ tp tp' o hg; exact ⟨t, h2, h1⟩
+          · obtain ⟨t, h1, h2, _⟩ := gen_half ps ok mn mx τ tp tp' o hg; exact ⟨t, h2, h1⟩)
+      (hargs x (by simp)) hr
+    exact ⟨rfl, by intro o' ho; simp at ho; subst ho; exact this⟩
+  · rename_i i x
+    obtain ⟨o, hr, rfl⟩ := lift1_ok h
+    have := (nodeRepl_closed ok.refl ok.trans ok rfl (hargs x (by simp)) hr).1
+    exact ⟨rfl, by intro o' ho; simp at ho; subst ho; exact this⟩
+  · rename_i i one x
+    obtain ⟨o, hr, rfl⟩ := lift1_ok h
+    have := (ephemeral_closed (hargs x (by simp)) hr).1
+    exact ⟨rfl, by intro o' ho; simp at ho; subst ho; exact this⟩
+  · rename_i i x
+    obtain ⟨o, hr, rfl⟩ := lift1_ok h
+    have := (insert_closed ok.refl ok.trans ok rfl (hargs x (by simp)) hr).1
+    exact ⟨rfl, by intro o' ho; simp at ho; subst ho; exact this⟩
+  · rename_i i x
+    obtain ⟨o, hr, rfl⟩ := lift1_ok h
+    have := (shrink_closed ok.refl ok.trans (hargs x (by simp)) hr).1
+    exact ⟨rfl, by intro o' ho; simp at ho; subst ho; exact this⟩
+  · simp at h
+
+example : (∀ a ∈ [[pAdd, pOne, pOne], [pAdd, pTrue, pAdd, pOne, pOne]], WellFormed exPs.sub 1 a) ∧
+    applyOp exPs (.cx 0 1) [[pAdd, pOne, pOne], [pAdd, pTrue, pAdd, pOne, pOne]] [.choice 1 0, .choice 2 0, .choice 3 0] =
+      .ok ([[pAdd, pAdd, pOne, pOne, pOne], [pAdd, pTrue, pOne]], []) :=
+  ⟨by intro a ha; simp at ha; rcases ha with rfl | rfl
+      · exact wellFormed_iff_typed.2 ex_ty3
+      · exact wellFormed_iff_typed.2 ex_ty5, by rfl⟩
+
+/-- `staticLimit_total` instantiated for the modelled operators and DEAP's two usual keys: around any modelled
+operator applied to well-formed well-typed trees, with at least one tree passed positionally, the wrapper with
+`key = height` (and likewise `len`, which is always defined) never raises: `height` is defined on everything the
+operator returns (`op_closed`, `height_eq`). -/
+theorem staticLimit_height_total {ps : Pset} (ok : PsetOK ps) (σ : Nat) (op : Op) (maxv npos : Nat)
+    (args new : List (List Prim)) (tp tp1 : Tape)
+    (hargs : ∀ a ∈ args, WellFormed ps.sub σ a) (hne : args ≠ []) (hnp : 0 < npos)
+    (hop : applyOp ps op args tp = .ok (new, tp1)) :
+    Benign new.length tp1 (staticLimit heightL maxv npos (applyOp ps op) args tp) ∧
+    Benign new.length tp1 (staticLimit (fun l => some l.length) maxv npos (applyOp ps op) args tp) := by
+  have hwf := (op_closed ok σ op args new tp tp1 hargs hop).2
+  refine ⟨(staticLimit_total heightL maxv npos _ args new tp tp1 hop ?_ (fun _ => ⟨hnp, hne⟩)).1,
+    (staticLimit_total _ maxv npos _ args new tp tp1 hop (fun n _ => ⟨n.length, rfl⟩) (fun _ => ⟨hnp, hne⟩)).1⟩
+  intro n hn
+  obtain ⟨t, hw, rfl⟩ := hwf n hn
+  exact ⟨t.height, height_eq t (wf_of_wt hw)⟩
+
+example : (∀ a ∈ [[pAdd, pOne, pOne]], WellFormed exPs.sub 1 a) ∧ [[pAdd, pOne, pOne]] ≠ [] ∧
+    applyOp exPs (.muti 0) [[pAdd, pOne, pOne]] [.randrange 0 3 1, .choice 2 0, .choice 2 1, .choice 3 1, .choice 1 0] =
+      .ok ([[pAdd, pAdd, pTrue, pOne, pOne]], [.choice 1 0]) :=
+  ⟨by intro a ha; simp at ha; subst ha; exact wellFormed_iff_typed.2 ex_ty3, by simp, by rfl⟩
+
+/-- **Closure along every history.**  Any finite sequence of the modelled operators — each bare or wrapped by
+`staticLimit` with any key, limit and number of positional trees — applied to a population of well-formed well-typed
+trees (distinct objects, one root slot `σ` as in a population) yields a population of as many well-formed well-typed
+trees, whatever the tape: induction over the operator list. -/
+theorem ops_closed_history {ps : Pset} (ok : PsetOK ps) (σ : Nat) (steps : List Step)
+    (pop pop' : List (List Prim)) (tp tp' : Tape)
+    (hpop : ∀ t ∈ pop, WellFormed ps.sub σ t)
+    (h : runHistory ps steps pop tp = .ok (pop', tp')) :
+    pop'.length = pop.length ∧ ∀ t ∈ pop', WellFormed ps.sub σ t := by
+  refine runHistory_inv (WellFormed ps.sub σ) steps pop pop' tp tp' hpop ?_ h
+  intro s _ pop tp pop' tp' hpop hs
+  refine stepState_inv (WellFormed ps.sub σ) hpop ?_ hs
+  intro args outs tp1 hmem hr
+  have hargs : ∀ a ∈ args, WellFormed ps.sub σ a := fun a ha => hpop a (hmem a ha)
+  split at hr
+  · exact (op_closed ok σ s.op args outs tp tp1 hargs hr).2
+  · rename_i L _
+    exact (staticLimit_closed (WellFormed ps.sub σ) L.key L.maxv L.npos (applyOp ps s.op) args outs tp tp1 hargs
+      (fun new tp2 hop => (op_closed ok σ s.op args new tp tp2 hargs hop).2) hr).1
+
+/-- a two-step history on the fixture set: a crossover, then `mutShrink` of the first child under a size limit -/
+example : (∀ t ∈ [[pAdd, pOne, pOne], [pAdd, pTrue, pAdd, pOne, pOne]], WellFormed exPs.sub 1 t) ∧
+    runHistory exPs [⟨.cx 0 1, none⟩, ⟨.muts 0, some ⟨fun l => some l.length, 5, 1⟩⟩]
+      [[pAdd, pOne, pOne], [pAdd, pTrue, pAdd, pOne, pOne]]
+      [.choice 1 0, .choice 2 0, .choice 3 0, .choice 1 0, .choice 2 1] =
+      .ok ([[pAdd, pOne, pOne], [pAdd, pTrue, pOne]], []) :=
+  ⟨by intro a ha; simp at ha; rcases ha with rfl | rfl
+      · exact wellFormed_iff_typed.2 ex_ty3
+      · exact wellFormed_iff_typed.2 ex_ty5, by rfl⟩
+
+/-- **The static limit is an invariant of the whole history.**  If every operator of the history is wrapped by
+`staticLimit(key, maxv)` (any operators, any positions, any number of positional trees) and every tree of the
+initial population respects the limit, every tree of every later population does — for ANY primitive set and ANY
+trees (no well-formedness needed: the wrapper measures what it returns). -/
+theorem ops_limit_history (ps : Pset) (key : List Prim → Option Nat) (maxv : Nat) (steps : List Step)
+    (pop pop' : List (List Prim)) (tp tp' : Tape)
+    (hall : ∀ s ∈ steps, ∃ np, s.lim = some ⟨key, maxv, np⟩)
+    (hpop : ∀ t ∈ pop, ∃ k, key t = some k ∧ k ≤ maxv)
+    (h : runHistory ps steps pop tp = .ok (pop', tp')) :
+    pop'.length = pop.length ∧ ∀ t ∈ pop', ∃ k, key t = some k ∧ k ≤ maxv := by
+  refine runHistory_inv (fun t => ∃ k, key t = some k ∧ k ≤ maxv) steps pop pop' tp tp' hpop ?_ h
+  intro s hs pop tp pop' tp' hpop hst
+  obtain ⟨np, hl⟩ := hall s hs
+  refine stepState_inv (fun t => ∃ k, key t = some k ∧ k ≤ maxv) hpop ?_ hst
+  intro args outs tp1 hmem hr
+  rw [hl] at hr
+  exact staticLimit_sound key maxv np (applyOp ps s.op) args outs tp tp1 (fun a ha => hpop a (hmem a ha)) hr
+
+/-- the hypotheses on the two-step history above with both steps limited to 5 nodes -/
+example : (∀ s ∈ [(⟨.cx 0 1, some ⟨fun l => some l.length, 5, 2⟩⟩ : Step), ⟨.muts 0, some ⟨fun l => some l.length, 5, 1⟩⟩],
+      ∃ np, s.lim = some ⟨fun l => some l.length, 5, np⟩) ∧
+    (∀ t ∈ [[pAdd, pOne, pOne], [pAdd, pTrue, pAdd, pOne, pOne]], ∃ k, (fun l : List Prim => some l.length) t = some k ∧ k ≤ 5) :=
+  ⟨by intro s hs; simp at hs; rcases hs with rfl | rfl
+      · exact ⟨2, rfl⟩
+      · exact ⟨1, rfl⟩,
+   by intro t ht; simp at ht; rcases ht with rfl | rfl <;> simp⟩
 
 /-! ## The pools -/
 
